@@ -81,6 +81,8 @@ def check_index_map_validity(im, space) :
     env = space.get_cell_env_array()
     env_out = [-2 for i in range(min(im), max(im)+1)]
     for i in range(space.size()) :
+        if im[i] == -1 : # dropped cells belong to no output node
+            continue
         if env_out[im[i]] == -2 :
             env_out[im[i]] = env[i]
         elif env_out[im[i]] == env[i] : 
